@@ -230,7 +230,7 @@ func KSRSAShortD(base *KSRSA, from, tries int) (*KSRSA, bool) {
 type KSWindowSet struct {
 	W    int
 	raw  map[string]string // window -> name of the secret
-	b64  map[string]string // 8-char base64 windows (normalised to the std alphabet)
+	b64  map[string]string // 10-char base64 windows (normalised to the std alphabet)
 	hexw map[string]string // 2W lowercase hex chars
 }
 
